@@ -4,34 +4,35 @@
   the real encoding/json by the differential harness); kernel: a killed write(2) leaves a prefix of its buffer.
 -/
 import ErgoProofs.Lemmas.StorageThm
+import ErgoProofs.Lemmas.CodecInst
 namespace Ergo
 open Storage
 
-variable {classify : Bytes → LineClass} {encode : Event → Bytes} {limit : Nat}
+variable {W : Event → Prop} {classify : Bytes → LineClass} {encode : Event → Bytes} {limit : Nat}
 
 /-- however many crashes (writes cut short at any byte offset), appends and rewrites alternate, starting from any
     readable file, every later read succeeds -/
-theorem C03_always_readable (hc : Codec classify encode) (f g : Bytes) (es : List Event)
-    (hr : readEvents classify limit f = .ok es) (h : FileReach classify encode limit f g) :
+theorem C03_always_readable (hc : CodecOn W classify encode) (f g : Bytes) (es : List Event)
+    (hr : readEvents classify limit f = .ok es) (h : FileReach W classify encode limit f g) :
     ∃ es', readEvents classify limit g = .ok es' :=
   reach_readable hc f g es hr h
 
 /-- everything visible before stays visible, in order: only the interrupted command's own events can be missing -/
-theorem C03_acknowledged_kept (hc : Codec classify encode) (f g : Bytes) (es : List Event)
-    (hr : readEvents classify limit f = .ok es) (h : AppendReach classify encode limit f g) :
+theorem C03_acknowledged_kept (hc : CodecOn W classify encode) (f g : Bytes) (es : List Event)
+    (hr : readEvents classify limit f = .ok es) (h : AppendReach W classify encode limit f g) :
     ∃ more, readEvents classify limit g = .ok (es ++ more) :=
   appendReach_prefix hc f g es hr h
 
 /-- a later mutation on ANY readable (however torn) file takes effect completely and leaves the store readable and closed -/
-theorem C03_later_mutation_takes_effect (hc : Codec classify encode) (f : Bytes) (es evs : List Event)
-    (hr : readEvents classify limit f = .ok es) (hs : Short encode limit evs) :
+theorem C03_later_mutation_takes_effect (hc : CodecOn W classify encode) (f : Bytes) (es evs : List Event)
+    (hr : readEvents classify limit f = .ok es) (hs : Short W encode limit evs) :
     readEvents classify limit (appendFile classify encode f evs) = .ok (es ++ evs) ∧
     Closed (appendFile classify encode f evs) :=
   appendFile_reads hc f es evs hr hs
 
 /-- a write cut short at byte k leaves everything from before plus a prefix of the interrupted batch -/
-theorem C03_torn_write (hc : Codec classify encode) (f : Bytes) (es evs : List Event) (k : Nat)
-    (hr : readEvents classify limit f = .ok es) (hs : Short encode limit evs) :
+theorem C03_torn_write (hc : CodecOn W classify encode) (f : Bytes) (es evs : List Event) (k : Nat)
+    (hr : readEvents classify limit f = .ok es) (hs : Short W encode limit evs) :
     ∃ n, n ≤ evs.length ∧ readEvents classify limit (appendTorn classify encode f evs k) = .ok (es ++ evs.take n) :=
   appendTorn_reads hc f es evs k hr hs
 
@@ -39,5 +40,35 @@ theorem C03_torn_write (hc : Codec classify encode) (f : Bytes) (es evs : List E
 theorem C03_repair_invisible (f : Bytes) (es : List Event) (hr : readEvents classify limit f = .ok es) :
     readEvents classify limit (repairTail classify f) = .ok es ∧ Closed (repairTail classify f) :=
   readEvents_repairTail f es hr
+
+
+/-! ### the same for ergo's actual line format
+`Codec.classifyLine` / `Codec.encodeEvent` (ErgoModel/Codec.lean) are `bytes.TrimSpace` + `json.Unmarshal` + replay's payload decoding, and
+`json.Marshal` of an event, byte for byte (tie: `fn-codec`); `Codec.jsonCodec` proves they form a codec, so nothing is assumed about the
+line format any more. -/
+
+/-- a line cut anywhere is never taken for an event: no proper non-empty prefix of a written line is valid JSON -/
+theorem C03_cut_line_is_rejected (ets : Event → String) (e : Event) (p : Bytes)
+    (hp : p <+: Codec.encodeEvent ets e) (hne : p ≠ Codec.encodeEvent ets e) (hnil : p ≠ []) : Codec.classifyLine p = .bad :=
+  Codec.prefix_bad ets e p hp hne hnil
+
+/-- however many kills (at any byte) and writes alternate, the JSONL store stays readable -/
+theorem C03_always_readable_json (ets : Event → String) (f g : Bytes) (es : List Event)
+    (hr : readEvents Codec.classifyLine limit f = .ok es) (h : FileReach Codec.Wf Codec.classifyLine (Codec.encodeEvent ets) limit f g) :
+    ∃ es', readEvents Codec.classifyLine limit g = .ok es' :=
+  C03_always_readable (Codec.jsonCodec ets) f g es hr h
+
+/-- … and a write of well-formed events cut after `k` bytes leaves everything from before plus whole events of the batch -/
+theorem C03_torn_write_json (ets : Event → String) (f : Bytes) (es evs : List Event) (k : Nat)
+    (hr : readEvents Codec.classifyLine limit f = .ok es) (hs : Short Codec.Wf (Codec.encodeEvent ets) limit evs) :
+    ∃ n, n ≤ evs.length ∧
+      readEvents Codec.classifyLine limit (appendTorn Codec.classifyLine (Codec.encodeEvent ets) f evs k) = .ok (es ++ evs.take n) :=
+  appendTorn_reads (Codec.jsonCodec ets) f es evs k hr hs
+
+/-- the events any command sequence writes are exactly of the kind this covers: starting from a log of well-formed events, with clock
+    readings before year 10000, the log after any command consists of well-formed events -/
+theorem C03_commands_write_recoverable_events (log : List Event) (hl : Codec.AllWf log) (env : Env) (he : Codec.EnvT env) (req : Request) :
+    Codec.AllWf (runCmd log env req).log :=
+  Codec.runCmd_wf log hl env he req
 
 end Ergo
